@@ -22,7 +22,7 @@ WTok(v, d) == IF d = 0 THEN <<Num(v[1]), Num(v[2])>>
 WKw(t) == CASE t = "Point" -> "POINT" [] t = "LineString" -> "LINESTRING" [] t = "Polygon" -> "POLYGON"
             [] t = "MultiLineString" -> "MULTILINESTRING" [] t = "MultiPolygon" -> "MULTIPOLYGON"
 RenderW(x) == <<Kw(WKw(x.t))>> \o WTok(IF x.t = "Point" THEN <<x.m>> ELSE x.m, WDepth(x.t))
-Init == g \in Supported(MaxM) \cup WithDuplicates \cup Extremes \cup (IF Empties THEN WithEmpties(MaxM) ELSE {})
+Init == g \in Supported(MaxM) \cup WithDuplicates \cup ClosedLines \cup Extremes \cup (IF Empties THEN WithEmpties(MaxM) ELSE {})
 Spec == Init /\ [][UNCHANGED g]_g
 RemoveTok(ts, i) == SubSeq(ts, 1, i - 1) \o SubSeq(ts, i + 1, Len(ts))
 JsonOK == /\ ParseGeoJSON(RenderJ(g, TRUE)).ok /\ ParseGeoJSON(RenderJ(g, TRUE)).v = g
